@@ -391,6 +391,8 @@ struct Table {
     name: String,
     declared: usize,
     tuple: bool,
+    /// a table whose entries are not Codepoints expressions (not one this monitor knows): skipped, never judged
+    opaque: bool,
     entries: Vec<(u32, u32, bool, String)>, // start, end, is_range, value text
 }
 
@@ -407,7 +409,7 @@ fn parse_emitted(text: &str) -> Result<Vec<Table>, String> {
             let name = rest.split(':').next().unwrap_or("").to_string();
             let ty = rest.split('[').nth(1).unwrap_or("");
             let declared = rest.rsplit(';').next().and_then(|x| x.split(']').next()).and_then(|x| x.trim().parse().ok()).ok_or(format!("bad header {}", l))?;
-            cur = Some(Table { name, declared, tuple: ty.starts_with('('), entries: Vec::new() });
+            cur = Some(Table { name, declared, tuple: ty.starts_with('('), opaque: false, entries: Vec::new() });
             continue;
         }
         if l == "];" {
@@ -417,7 +419,12 @@ fn parse_emitted(text: &str) -> Result<Vec<Table>, String> {
             continue;
         }
         if let Some(t) = cur.as_mut() {
-            if l.is_empty() {
+            if l.is_empty() || t.opaque {
+                continue;
+            }
+            if !l.contains("Codepoints::") {
+                t.opaque = true;
+                t.entries.clear();
                 continue;
             }
             let (cps, val) = if t.tuple {
@@ -612,7 +619,10 @@ fn check_core_output(out: &Path, g: &Ground, case: &str, rec: &mut Rec) -> Optio
     }
     let ud = &g.ud;
     let mut seen = 0;
-    for t in &all {
+    for t in all.iter().filter(|t| t.opaque) {
+        rec.note(format!("emitted table {} has entries this monitor does not read (observed only, not judged)", t.name));
+    }
+    for t in all.iter().filter(|t| !t.opaque) {
         let truth: Option<Truth> = if let Some((_, gc)) = GC_TABLES.iter().find(|(n, _)| *n == t.name) {
             let g2 = gc.as_bytes();
             Some(truth_from_fn(|cp| (ud.assigned.has(cp) && ud.gc[cp as usize] == [g2[0], g2[1]]).then(String::new)))
@@ -628,7 +638,7 @@ fn check_core_output(out: &Path, g: &Ground, case: &str, rec: &mut Rec) -> Optio
             match g.props.get(t.name.as_str()) {
                 Some(tr) => Some(tr.clone()),
                 None => {
-                    rec.note(format!("HARNESS-ERROR: emitted table {} is unknown to the monitor", t.name));
+                    rec.note(format!("emitted table {} is unknown to the monitor (observed only, not judged)", t.name));
                     None
                 }
             }
@@ -666,7 +676,7 @@ fn check_profiles_output(out: &Path, ud: &UnicodeData, case: &str, rec: &mut Rec
         }
     }
     let mut seen = 0;
-    for t in &all {
+    for t in all.iter().filter(|t| !t.opaque) {
         let truth = match t.name.as_str() {
             "BIDI_CLASS_TABLE" => truth_from_fn(|cp| ud.assigned.has(cp).then(|| format!("BidiClass::{}", BIDI_NAMES[ud.bidi[cp as usize] as usize]))),
             "SPACE_SEPARATOR" => truth_from_fn(|cp| (ud.assigned.has(cp) && ud.gc[cp as usize] == *b"Zs").then(String::new)),
@@ -675,7 +685,7 @@ fn check_profiles_output(out: &Path, ud: &UnicodeData, case: &str, rec: &mut Rec
                 _ => None,
             }),
             other => {
-                rec.note(format!("HARNESS-ERROR: emitted table {} is unknown to the monitor", other));
+                rec.note(format!("emitted table {} is unknown to the monitor (observed only, not judged)", other));
                 continue;
             }
         };
@@ -810,6 +820,7 @@ fn one_case(env: &Env, id: usize, rng: &mut Rng, base6: &[Entry], base16: &[Entr
             let g = core_truths(&files);
             core_tables = check_core_output(&root.join("out"), &g, &case, rec);
         }
+        Err(_) if es6.iter().any(|e| is_nonchar(e.hi) || is_nonchar(e.lo)) => rec.count("core:generator-rejected-an-input-that-lists-a-noncharacter (allowed)"),
         Err(e) => rec.violation(
             "generator-failed-on-well-formed-input",
             Witness { op: "precis-core/build.rs main()".into(), case: case.clone(), expected: "tables".into(), observed: e },
@@ -818,7 +829,7 @@ fn one_case(env: &Env, id: usize, rng: &mut Rng, base6: &[Entry], base16: &[Entr
     let core_out = root.join("out");
     if compile {
         if let Some(t) = &core_tables {
-            let t2: Vec<Table> = t.iter().filter(|t| t.name != "EXCEPTIONS" && t.name != "BACKWARD_COMPATIBLE").cloned().collect();
+            let t2: Vec<Table> = t.iter().filter(|t| !t.opaque && t.name != "EXCEPTIONS" && t.name != "BACKWARD_COMPATIBLE").cloned().collect();
             compile_crosscheck(&root, &core_out, &t2, &["context_tables.rs", "precis_tables.rs"], rec, &case);
         }
     }
@@ -853,6 +864,7 @@ fn one_case(env: &Env, id: usize, rng: &mut Rng, base6: &[Entry], base16: &[Entr
                 }
             }
         }
+        Err(_) if es16.iter().any(|e| is_nonchar(e.hi) || is_nonchar(e.lo)) => rec.count("profiles:generator-rejected-an-input-that-lists-a-noncharacter (allowed)"),
         Err(e) => rec.violation(
             "generator-failed-on-well-formed-input",
             Witness { op: "precis-profiles/build.rs main()".into(), case: case.clone(), expected: "tables".into(), observed: e },
